@@ -638,7 +638,7 @@ class Tally(StatisticsInterface):
             or NaN  when too few observations were registered.
         """
         n = float(self._n)
-        if n > 1:
+        if n > 1 and self._m2 > 0:
             skew_biased = (self._m3 / n) / self.variance() ** 1.5 
             if biased:
                 return skew_biased
@@ -684,6 +684,9 @@ class Tally(StatisticsInterface):
             NaN  when too few observations were registered.
         """
         n = self._n
+        if not self._m2 > 0:
+            # zero variance (or no observations): the kurtosis is undefined
+            return math.nan
         if biased:
             if n > 2:
                 d2 = (self._m2 / n)
